@@ -1,5 +1,6 @@
 import FDAModel.Core.Proto
 import FDAModel.Transform
+import FDAModel.CovPath
 open FDA FDA.Proto
 
 def ncols (X : List (List ℚ)) : ℕ := (X.head?.map List.length).getD 0
@@ -136,6 +137,25 @@ def answer (l : String) : String :=
       | .ok _ => "ok"
       | .error e => "error:" ++ e
     | none => "bad"
+  | ["interp", tp, fp, us] =>
+    -- `np.interp(us, tp, fp)` and the squared norm of the interpolant on the grid `us`
+    match parseVec? tp, parseVec? fp, parseVec? us with
+    | some T, some Fv, some U =>
+      if T.length ≠ Fv.length ∨ T.isEmpty then "error" else
+      let ta := T.toArray
+      let fa := Fv.toArray
+      let ua := U.toArray
+      let v := tabA U.length fun j => interp T.length (rd ta) (rd fa) (rd ua j)
+      showVec (toList U.length (rd v)) ++ " " ++ showRat (normSq U.length (rd ua) (rd v))
+    | _, _, _ => "bad"
+  | ["stdthr", v, sd] =>
+    -- irregular standardisation with threshold 1e-12; `nan` in `sd` = sqrt of a negative variance
+    match parseVec? v, parseOptVec? sd with
+    | some V, some Sd =>
+      let va := V.toArray
+      let sa := Sd.toArray
+      showVec ((List.range V.length).map (standardizeThr (1 / 1000000000000) (fun k => (sa.getD k none)) (rd va)))
+    | _, _ => "bad"
   | ["mnorm", kinds] =>
     -- `MultivariateFunctionalData.normalize` on components of the given kinds (`b` = basis expansion)
     let ks := kinds.splitOn ","
